@@ -30,6 +30,9 @@ type Tables struct {
 	SymRepr     map[string][]string
 	Prefix      map[string]bool
 	Postfix     map[string]bool
+	PrefixPrec  map[string][2]int // spelling -> (low, high) precedence, from TLAMeta.prefixOperators
+	InfixPrec   map[string][3]int // spelling -> (low, high, left associative), from TLAMeta.infixOperators
+	PostfixPrec map[string]int
 }
 
 var (
@@ -43,6 +46,7 @@ var (
 	reUnsSym   = regexp.MustCompile(`^\s*BuiltinModules\.(\w+)\.memberSym\(TLASymbol\.(\w+)\),\s*$`)
 	reCaseObj  = regexp.MustCompile(`^\s*case object (\w+) extends Symbol\((.*?)\)\s*(\{\s*)?$`)
 	reRaw      = regexp.MustCompile(`raw"""(.*?)"""`)
+	rePrec     = regexp.MustCompile(`\d+`)
 	reStr      = regexp.MustCompile(`"((?:[^"\\]|\\.)*)"`)
 )
 
@@ -55,7 +59,8 @@ func stripComment(l string) string {
 
 // Load reads the four Scala files under root (the repository root).
 func Load(root string) (*Tables, error) {
-	t := &Tables{Unsupported: map[string]bool{}, SymRepr: map[string][]string{}, Prefix: map[string]bool{}, Postfix: map[string]bool{}}
+	t := &Tables{Unsupported: map[string]bool{}, SymRepr: map[string][]string{}, Prefix: map[string]bool{}, Postfix: map[string]bool{},
+		PrefixPrec: map[string][2]int{}, InfixPrec: map[string][3]int{}, PostfixPrec: map[string]int{}}
 	src := filepath.Join(root, "pgo", "src")
 	// --- AST.scala: symbols
 	ast, err := os.ReadFile(filepath.Join(src, "model", "tla", "AST.scala"))
@@ -112,12 +117,50 @@ func Load(root string) (*Tables, error) {
 			if m == nil {
 				return nil, fmt.Errorf("TLAMeta.scala: unclassified line in %sOperators: %q", mode, l)
 			}
+			nums := rePrec.FindAllString(s[strings.Index(s, "->"):], -1)
 			if mode == "prefix" {
 				t.Prefix[m[1]] = true
+				if len(nums) != 2 {
+					return nil, fmt.Errorf("TLAMeta.scala: prefix operator without (low, high): %q", l)
+				}
+				lo, _ := strconv.Atoi(nums[0])
+				hi, _ := strconv.Atoi(nums[1])
+				t.PrefixPrec[m[1]] = [2]int{lo, hi}
 			} else {
 				t.Postfix[m[1]] = true
+				if len(nums) != 1 {
+					return nil, fmt.Errorf("TLAMeta.scala: postfix operator without precedence: %q", l)
+				}
+				pr, _ := strconv.Atoi(nums[0])
+				t.PostfixPrec[m[1]] = pr
 			}
 		}
+		if mode == "infix" {
+			s := strings.TrimSpace(l) // no comment stripping: "//" is an operator spelling here
+			if s == "" {
+				continue
+			}
+			m := reRaw.FindStringSubmatch(s)
+			if m == nil || !strings.Contains(s, "->") {
+				return nil, fmt.Errorf("TLAMeta.scala: unclassified line in infixOperators: %q", l)
+			}
+			tail := s[strings.LastIndex(s, "->"):]
+			nums := rePrec.FindAllString(tail, -1)
+			if len(nums) != 2 || !(strings.Contains(tail, "true") || strings.Contains(tail, "false")) {
+				return nil, fmt.Errorf("TLAMeta.scala: infix operator without (low, high, assoc): %q", l)
+			}
+			lo, _ := strconv.Atoi(nums[0])
+			hi, _ := strconv.Atoi(nums[1])
+			as := 0
+			if strings.Contains(tail, "true") {
+				as = 1
+			}
+			name := strings.ReplaceAll(strings.ReplaceAll(m[1], `${"\\"}`, `\`), "$$", "$")
+			t.InfixPrec[name] = [3]int{lo, hi, as}
+		}
+	}
+	if len(t.InfixPrec) < 60 {
+		return nil, fmt.Errorf("TLAMeta.scala: only %d infix operators with precedences recognised", len(t.InfixPrec))
 	}
 	if len(t.Prefix) < 5 || len(t.Postfix) < 2 {
 		return nil, fmt.Errorf("TLAMeta.scala: prefix/postfix tables not recognised (%d/%d)", len(t.Prefix), len(t.Postfix))
